@@ -10,7 +10,7 @@ miss=0
 for d in seeded/*/; do
   id=$(basename $d); prop=${id%%-*}
   [ -n "${ONLY:-}" ] && ! echo " $ONLY " | grep -q " $id " && continue
-  git -C /repo apply "$d/patch.diff" || { echo "$id APPLY-FAILED"; continue; }
+  git -C /repo apply "$PWD/${d%/}/patch.diff" || { echo "$id APPLY-FAILED"; continue; }
   line="$id"
   for s in "${seeds[@]}"; do
     VERIF_SEED=$s VERIF_EVIDENCE_OUT=/dev/null ./check $prop quick >/dev/null 2>&1; rc=$?
